@@ -562,6 +562,27 @@ impl<'a> Gen<'a> {
         Some(self.missing_value(f))
     }
 
+    /// a `missing` value with a long mantissa that the field's type holds exactly (sums of a run
+    /// of it are rounded)
+    fn wide_missing_value(&mut self, f: Fd) -> f64 {
+        match f.ty() {
+            Ty::F64 => {
+                let x = self.rng.irange(-1_000_000, 1_000_000) as f64 / 7.0;
+                if self.rng.bool() {
+                    x * 1.0e12
+                } else {
+                    x
+                }
+            }
+            // the i64 -> f64 conversion rounds to a value that converts back exactly
+            Ty::I64 => (self.rng.irange(1 << 53, 1 << 62) * if self.rng.bool() { -1 } else { 1 }) as f64,
+            Ty::U64 => self.rng.irange(1 << 53, 1 << 62) as f64,
+            // ns between 2001 and 2030
+            Ty::Date => self.rng.irange(1_000_000_000_000_000_000, 1_900_000_000_000_000_000) as f64,
+            _ => 1.0,
+        }
+    }
+
     fn missing_value(&mut self, f: Fd) -> f64 {
         match f.ty() {
             Ty::F64 => *self.rng.pick(&[0.0, -2.5, 7.25, 100.0, 0.3]),
@@ -1425,16 +1446,29 @@ impl<'a> Gen<'a> {
     /// (narrow histogram and range buckets nearly constant ones), also values whose sums are not
     /// exactly representable (ns timestamps, large integers, non-dyadic fractions).
     pub fn gen_same_field_metric(&mut self) -> ((String, Agg), String) {
+        let absent = self.corpus.absent_numeric_fields();
+        if self.corpus.docs.len() >= 30 && !absent.is_empty() && self.rng.chance(1, 2) {
+            return self.gen_metric_over_missing_run(&absent);
+        }
         let cands = [Fd::Ff, Fd::Ff, Fd::Fdt, Fd::Fdt, Fd::Fi, Fd::Fu, Fd::Id, Fd::Rank];
         // two times out of three a field whose values repeat often (long runs of one value in a
         // bucket), if there is one
         let repeated: Vec<Fd> = cands.iter().cloned().filter(|f| self.corpus.repetition(*f) >= 30.0).collect();
-        let field = if !repeated.is_empty() && self.rng.chance(2, 3) {
+        let wide_runs = self.corpus.wide_run_fields();
+        let field = if !wide_runs.is_empty() && self.rng.chance(3, 4) {
+            // long runs of one value whose sums are rounded
+            *self.rng.pick(&wide_runs)
+        } else if !repeated.is_empty() && self.rng.chance(1, 2) {
             *self.rng.pick(&repeated)
         } else {
             *self.rng.pick(&cands)
         };
-        let kind = *self.rng.pick(&[MK::ExtStats, MK::ExtStats, MK::ExtStats, MK::Stats, MK::Avg, MK::Sum]);
+        let on_wide_run = wide_runs.contains(&field);
+        let kind = if on_wide_run && self.rng.chance(1, 2) {
+            MK::ExtStats
+        } else {
+            *self.rng.pick(&[MK::ExtStats, MK::ExtStats, MK::ExtStats, MK::Stats, MK::Avg, MK::Sum])
+        };
         // `missing` turns a sparse or absent field into a long run of one value
         let missing = if self.rng.chance(2, 5) { Some(self.missing_value(field)) } else { None };
         let sigma = if kind == MK::ExtStats && self.rng.chance(1, 3) {
@@ -1484,20 +1518,57 @@ impl<'a> Gen<'a> {
                 (self.name("filter"), Agg::Filter { q, subs: vec![] })
             }
         };
-        let tag = format!("same-field-metric/{}>{}/{:?}", parent.kind(), kind.short(), field.ty());
+        let tag = format!(
+            "same-field-metric/{}>{}/{:?}{}",
+            parent.kind(),
+            kind.short(),
+            field.ty(),
+            if on_wide_run { "/wide-run" } else { "" }
+        );
         if let Some(s) = parent.subs_mut() {
             s.push(metric);
         }
         ((name, parent), tag)
     }
 
+    /// A metric with a `missing` value over a field that no document of the corpus has: every
+    /// document contributes the same (long mantissa) value, top-level or per bucket of a parent.
+    fn gen_metric_over_missing_run(&mut self, absent: &[Fd]) -> ((String, Agg), String) {
+        let field = *self.rng.pick(absent);
+        let kind = *self.rng.pick(&[MK::ExtStats, MK::ExtStats, MK::ExtStats, MK::ExtStats, MK::Stats, MK::Avg, MK::Sum]);
+        let sigma = if kind == MK::ExtStats && self.rng.chance(1, 3) {
+            Some(*self.rng.pick(&[1.0, 3.0, 0.5]))
+        } else {
+            None
+        };
+        let missing = Some(self.wide_missing_value(field));
+        let metric = (
+            self.name(kind.short()),
+            Agg::Metric {
+                kind,
+                field,
+                missing,
+                sigma,
+            },
+        );
+        let tag = format!("same-field-metric/absent-field-with-missing>{}/{:?}/wide-run", kind.short(), field.ty());
+        if self.rng.chance(1, 3) {
+            (metric, tag)
+        } else {
+            (self.wrap_in_parent(metric), tag)
+        }
+    }
+
     /// A range aggregation with buckets that no document can fall into (before the smallest and
     /// after the largest value, and open ended on both sides), with one or two sub aggregations of
     /// any kind: parent buckets that exist without ever receiving a document.
     pub fn gen_empty_parent_bucket(&mut self) -> ((String, Agg), String) {
-        let mut cands = vec![Fd::Rank, Fd::Id, Fd::Fi, Fd::Ff];
-        if self.corpus.span(Fd::Fu).map(|(_, hi)| hi < 1e15).unwrap_or(true) {
-            cands.push(Fd::Fu);
+        // the cut points are computed in f64: only fields whose values leave room for that
+        let mut cands = vec![Fd::Rank, Fd::Id];
+        for f in [Fd::Fi, Fd::Ff, Fd::Fu] {
+            if self.corpus.span(f).map(|(lo, hi)| lo.abs() < 1e15 && hi.abs() < 1e15).unwrap_or(true) {
+                cands.push(f);
+            }
         }
         let field = *self.rng.pick(&cands);
         let unsigned = field.ty() == Ty::U64;
